@@ -2,7 +2,7 @@
    [enter] is the SDK's test |c| > eps for taking a term, [leave] its test |v| < eps for deleting an
    accumulated entry; exactness is stated for every pair of tests that only discard exact zeros. *)
 Require Import Ommx.Num Ommx.Poly Ommx.Msg Ommx.Eval Ommx.Tree Ommx.Arith Ommx.Inst
-        Ommx.Transform Ommx.PuboProofs Ommx.ResidualOps.
+        Ommx.InstProofs Ommx.Transform Ommx.PuboProofs Ommx.ResidualOps Ommx.PuboInst.
 From Coq Require Import String.
 Close Scope string_scope. Open Scope list_scope. Open Scope Qc_scope.
 
@@ -80,3 +80,55 @@ Example C11_nonvacuous :
               i_hints := L []; i_desc := L [] |} in
   as_pubo enter_eps leave_eps I = inr [([1; 2]%N, qz 2); ([1]%N, qz 2)].
 Proof. vm_compute. reflexivity. Qed.
+
+
+(* ---------------------------------------------------------------------------------------------
+   INSTANCE LEVEL (PuboInst.v): the exported dictionary reproduces the objective REPORTED BY
+   Instance::evaluate at every state that is 0/1 on the binary variables; with the SDK's own eps
+   tests within (#terms)*eps; a successful export means no active constraint, so the relaxed
+   feasibility flag of every evaluation is true; the export is defined exactly when there is no
+   active constraint, the sense is not maximisation and every used variable is binary (QUBO: and no
+   kept term has more than two distinct ids). *)
+Theorem C11_pubo_evaluation : forall enter leave,
+  (forall c, enter c = false -> c = 0) -> (forall v, leave v = true -> v = 0) ->
+  forall I D, as_pubo enter leave I = inr D ->
+  forall x sol, binary_on I x -> inst_eval I x = Some sol ->
+    so_objective sol = pubo_value D x.
+Proof. exact pubo_matches_evaluation. Qed.
+Print Assumptions C11_pubo_evaluation.
+
+Theorem C11_qubo_evaluation : forall enter leave,
+  (forall c, enter c = false -> c = 0) -> (forall v, leave v = true -> v = 0) ->
+  forall I D c0, as_qubo enter leave I = inr (D, c0) ->
+  forall x sol, binary_on I x -> inst_eval I x = Some sol ->
+    so_objective sol = qubo_value D c0 x.
+Proof. exact qubo_matches_evaluation. Qed.
+Print Assumptions C11_qubo_evaluation.
+
+Theorem C11_pubo_evaluation_eps : forall I D, as_pubo enter_eps leave_eps I = inr D ->
+  forall x sol, binary_on I x -> inst_eval I x = Some sol ->
+    qabs (pubo_value D x - so_objective sol) <= qn (nterms (fn_or_zero (i_obj I))) * eps.
+Proof. exact pubo_matches_evaluation_eps. Qed.
+Print Assumptions C11_pubo_evaluation_eps.
+
+Theorem C11_qubo_evaluation_eps : forall I D c0, as_qubo enter_eps leave_eps I = inr (D, c0) ->
+  forall x sol, binary_on I x -> inst_eval I x = Some sol ->
+    qabs (qubo_value D c0 x - so_objective sol) <= qn (nterms (fn_or_zero (i_obj I))) * eps.
+Proof. exact qubo_matches_evaluation_eps. Qed.
+Print Assumptions C11_qubo_evaluation_eps.
+
+Theorem C11_export_feasible_relaxed : forall enter leave I D, as_pubo enter leave I = inr D ->
+  forall x sol, inst_eval I x = Some sol -> so_feasible_relaxed sol = true.
+Proof. exact pubo_export_feasible_relaxed. Qed.
+Print Assumptions C11_export_feasible_relaxed.
+
+Theorem C11_pubo_defined_iff : forall enter leave I,
+  (exists D, as_pubo enter leave I = inr D) <->
+  i_cs I = [] /\ i_sense I <> SENSE_MAX /\
+  forall i, In i (fn_used (fn_or_zero (i_obj I))) -> exists d, In d (i_dvs I) /\ dv_id d = i /\ dv_kind d = KIND_BINARY.
+Proof. exact pubo_export_defined_iff. Qed.
+Print Assumptions C11_pubo_defined_iff.
+Check qubo_export_defined_iff.
+Check pubo_inst_nonvacuous.
+Check qubo_inst_nonvacuous.
+Print Assumptions pubo_inst_theorem_applies.
